@@ -167,6 +167,51 @@ fn index_to_seq(alpha: &[Op], mut code: u64, depth: usize) -> Vec<Op> {
     v
 }
 
+/// frequencies that differ by less than a part per billion (what a locked servo sends): after
+/// set_frequency(p1), an advance, set_frequency(p2) and 10^4 s the reading has advanced by
+/// 10^4 s * (1 + p2/1e6), to 50 ns
+fn fine_frequencies() -> (u64, Vec<(String, String, serde_json::Value)>) {
+    let mut bad = vec![];
+    let mut n = 0;
+    let base = [0.0f64, 100.0, -250.0, 499.999];
+    let deltas = [0.0f64, 1e-6, -1e-6, 8e-5, -5e-4, 9.9e-4, 1.1e-3, -2.5e-2];
+    for &p1 in &base {
+        for &dp in &deltas {
+            for with_step in [false, true] {
+                n += 1;
+                let p2 = p1 + dp;
+                let start: u128 = 10_000_000_000;
+                let cell = Rc::new(Cell::new(time_bits(start << 32)));
+                let mut clk = OverlayClock::new(Under(cell.clone()));
+                let r = catch(|| {
+                    clk.set_frequency(p1).unwrap();
+                    cell.set(cell.get() + Duration::from_nanos(3_000_000_000));
+                    if with_step {
+                        clk.step_clock(Duration::from_nanos(-2_500_000_000)).unwrap();
+                    }
+                    clk.set_frequency(p2).unwrap();
+                    let t0 = t40(clk.now());
+                    let adv: i64 = 10_000_000_000_000;
+                    cell.set(cell.get() + Duration::from_nanos(adv));
+                    let t1 = t40(clk.now());
+                    let want = ((adv as i128) << SH) + (((adv as f64) * p2 / 1e6) * (1u64 << SH) as f64) as i128;
+                    (t1 - t0) - want
+                });
+                match r {
+                    Ok(err) if err.abs() <= (50i128 << SH) => {}
+                    Ok(err) => bad.push((
+                        "rate-after-small-frequency-change".to_string(),
+                        format!("set_frequency({p1}) ... set_frequency({p2}), then 10^4 s: the reading advanced {:.1} ns too far", err as f64 / (1u64 << SH) as f64),
+                        json!({"kind": "fine", "p1": p1, "p2": p2, "step": with_step}),
+                    )),
+                    Err(p) => bad.push((format!("panic:{}", p.signature()), p.message, json!({"kind": "fine", "p1": p1, "p2": p2}))),
+                }
+            }
+        }
+    }
+    (n, bad)
+}
+
 pub fn run(tier: Tier) -> i32 {
     let mut rep = Reporter::new("C18", tier, "model_checking");
     let alpha = alphabet();
@@ -199,6 +244,14 @@ pub fn run(tier: Tier) -> i32 {
                 in_domain += 1;
                 viols.entry(sig.clone()).or_insert(Violation { signature: sig, message: format!("{msg} [start {s} ns, ops {:?}]", seq), replay: json!({"start_ns": s.to_string(), "seq": seq}) });
             }
+        }
+    }
+    {
+        let (n, bad) = fine_frequencies();
+        total += n;
+        in_domain += n;
+        for (sig, msg, replay) in bad {
+            viols.entry(sig.clone()).or_insert(Violation { signature: sig, message: msg, replay });
         }
     }
     // E2: length-50 cyclic pattern with <= 2 substitutions
